@@ -189,3 +189,44 @@ def c19_generate_slips(ctx, v):
                 v.fail("generate_slips n=%d: inputs/change do not add up to the requested amount" % len(amts), dict(path=L.trace_text(o, 10)))
         if not _check(ctx, v, ex, "generate_slips n=%d" % n, outs, extra=extra):
             return
+
+
+def c19_remove_old_slips(ctx, v):
+    """Wallet::remove_old_slips(bound) (window expiry; called with block.id - genesis_period when a
+    block is wound) from any wallet satisfying Inv with 1..=2 slips: afterwards Inv holds, exactly
+    the slips created in blocks strictly older than the bound are gone, and every slip created at
+    the bound or later (still inside the window) is kept."""
+    body = ctx.body(r"wallet::<impl at [^>]*>::remove_old_slips$")
+    for n in (1, 2):
+        for layout in _layouts(n):
+            ex = ctx.executor(loop_bound=n + 3, inline="auto")
+            w, keys, amts, bids, pre = _wallet(ctx, ex, layout)
+
+            def parse(ex_, st, callee, args, dty, keys=keys):
+                # re-parsing a wallet key gives a slip whose stored utxoset_key is that key
+                if re.search(r"Slip::parse_slip_from_utxokey$", callee):
+                    from .models import mk_ok
+                    k = ex_.deref_value(args[0])
+                    return mk_ok(dty, L.sym_slip(ctx, ex_, "parsed!%d" % next(ex_.fresh_counter), utxoset_key=S.Bytes(k.len, k.arr)))
+                return None
+            ex.on_call = parse
+            st = S.State()
+            st.pc.extend(pre)
+            bound = ex.fresh_value("u64", "bound")
+            outs = ex.run(body, [S.Ref(S.Cell(w), (), True), bound], st)
+            v.paths += len(outs)
+
+            def extra(o, ex=ex, keys=keys, bids=bids, bound=bound, n=n):
+                post = ex.deref_value(o.state.frames[0].locals["_1"].v)
+                smap = post.fields[ctx.field_index("Wallet", "slips")]
+                for i in range(n):
+                    kept = z3.Or(*[z3.And(p, value_eq(ex, k, keys[i])) for p, k, _ in smap.entries]) if smap.entries else z3.BoolVal(False)
+                    old = z3.ULT(bids[i].bv, bound.bv)
+                    for what, bad in (("a slip created at or after the bound (still inside the window) was dropped from the wallet", z3.And(z3.Not(old), z3.Not(kept))),
+                                      ("a slip older than the bound was kept", z3.And(old, kept))):
+                        r, m = ex.model_for(o.pc, bad)
+                        v.queries += 1
+                        if r == z3.sat:
+                            v.fail("remove_old_slips layout=%s: %s" % (layout, what), dict(slip_block_id=m.eval(bids[i].bv, model_completion=True).as_long(), bound=m.eval(bound.bv, model_completion=True).as_long()))
+            if not _check(ctx, v, ex, "remove_old_slips layout=%s" % layout, outs, extra=extra):
+                return
